@@ -4,6 +4,7 @@ import (
 	"crypto/ed25519"
 	"math/rand"
 	"net"
+	"strconv"
 	"sync/atomic"
 	"time"
 
@@ -225,6 +226,18 @@ func scenPeers(rng *rand.Rand, tr *sim.Trace, seg int, events int) {
 	}
 	srcs = append(srcs, &net.UDPAddr{IP: srcs[0].IP, Port: srcs[0].Port + 1})
 	toks := map[string][]byte{}
+	if rng.Intn(3) == 0 {
+		// a large swarm: every one of its members must come back (no cut-off at a round number, no family mix-up)
+		for j, n := 0, 90+rng.Intn(60); j < n; j++ {
+			src := v4(46, 2, byte(j/200), byte(1+j%200), 1024+rng.Intn(60000))
+			if rng.Intn(5) == 0 {
+				src = v6(100+j, 1024+rng.Intn(60000))
+			}
+			tok := h.token(src, false)
+			h.in(src, &query{method: "announce_peer", t: h.nextT(), hasA: true, id: randID(rng), ih: &ihs[0], port: 1 + rng.Intn(65535), hasTok: true, tok: tok})
+			h.settle()
+		}
+	}
 	for i := 0; i < events; i++ {
 		src := srcs[rng.Intn(len(srcs))]
 		ih := ihs[rng.Intn(len(ihs))]
@@ -307,7 +320,7 @@ func scenMatch(rng *rand.Rand, tr *sim.Trace, seg int, events int) {
 			x := qs[i]
 			from, t := x.dst, append([]byte{}, x.t...)
 			y := "r"
-			switch rng.Intn(10) {
+			switch rng.Intn(12) {
 			case 0: // adjacent id
 				if len(t) > 0 {
 					t[len(t)-1]++
@@ -331,6 +344,15 @@ func scenMatch(rng *rand.Rand, tr *sim.Trace, seg int, events int) {
 				y = "e"
 			case 6: // the transaction ID of another outstanding query
 				t = append([]byte{}, qs[rng.Intn(len(qs))].t...)
+			case 7, 8: // another (address, ID) pair that reads the same when address and ID are written one after the other
+				ps := strconv.Itoa(from.Port)
+				if len(ps) > 1 {
+					cut := 1 + rng.Intn(len(ps)-1)
+					if p, err := strconv.Atoi(ps[:cut]); err == nil && p > 0 {
+						from = &net.UDPAddr{IP: from.IP, Port: p}
+						t = append([]byte(ps[cut:]), t...)
+					}
+				}
 			}
 			q := &query{y: y, t: t, hasA: y == "r", id: randID(rng), port: -1}
 			var b []byte
